@@ -10,50 +10,21 @@ def framesBytes (delimited : Bool) (fs : List Frame) : Bytes :=
   fs.flatMap fun f => if delimited then writeDelimited f else writeSingle f
 
 /-- `lk <rule> <size> k1 k2 …` : joint run of LookupEncoder and LookupDecoder on a key history. -/
-def cmdLk (rule : String) (size : Nat) (keys : List String) : String := Id.run do
-  let mut enc := LookupEnc.new size
-  let mut out : List String := []
-  match LookupDec.new size with
-  | .error e => return "!" ++ e.name
-  | .ok d0 =>
-    let mut dec := d0
-    let mut dead := false
-    for k in keys do
-      if dead then break
-      let mut entryS := "-"
-      let mut failed : Option PyErr := none
-      if size != 0 then
-        match enc.entryIndex k with
-        | .error e => failed := some e
-        | .ok (enc', ent) =>
-          enc := enc'
-          match ent with
-          | none => pure ()
-          | some id =>
-            entryS := toString id
-            match dec.assignEntry id k with
-            | .error e => failed := some e
-            | .ok d' => dec := d'
-      match failed with
-      | some e => out := out ++ [s!"{entryS};!{e.name}"]; dead := true
-      | none =>
-        let r := match rule with
-          | "name" => enc.nameTermIndex k
-          | "prefix" => enc.prefixTermIndex k
-          | _ => enc.datatypeTermIndex k
-        match r with
-        | .error e => out := out ++ [s!"{entryS};!{e.name}"]; dead := true
-        | .ok (enc', idx) =>
-          enc := enc'
-          let (dec', res) := match rule with
-            | "name" => dec.nameTerm idx
-            | "prefix" => dec.prefixTerm idx
-            | _ => dec.datatypeTerm idx
-          dec := dec'
-          match res with
-          | .error e => out := out ++ [s!"{entryS};{idx};!{e.name}"]; dead := true
-          | .ok s => out := out ++ [s!"{entryS};{idx};{hexOfString s}"]
-    return " ".intercalate out ++ s!" live={enc.lookup.data.length}"
+def cmdLk (rule : String) (size : Nat) (keys : List String) : String :=
+  let r : Rule := match rule with | "name" => .name | "prefix" => .prefix | _ => .datatype
+  match jointInit size with
+  | .error e => "!" ++ e.name
+  | .ok st0 =>
+    let ((enc, _), outs, fail) := jointRun r st0 keys []
+    let ent (e : Option Nat) : String := match e with | some id => toString id | none => "-"
+    let okS := outs.map fun o => s!"{ent o.entry};{o.idx};{hexOfString o.resolved}"
+    let failS := match fail with
+      | none => []
+      | some f => [match f.idx with
+          | some i => s!"{ent f.entry};{i};!{f.err.name}"
+          | none => s!"{ent f.entry};!{f.err.name}"]
+    -- the writer table as it is when the run stops (after a failed step it is the state before that step)
+    " ".intercalate (okS ++ failS) ++ s!" live={enc.lookup.data.length}"
 
 /-- `ser <cls> <entry> <opts|-> <data>` -/
 def cmdSer (cls entry opts data : String) : String :=
@@ -144,6 +115,20 @@ def cmdStep (cls opts : String) (ops : List String) : String :=
         else out := out ++ ["?bad-op"]
       return " ".intercalate out ++ s!" flow={s.flow.rows.length}"
 
+/-- `trace <cls> <opts> <stmts>` : pull/yield trace of `stream_frames(stream, generator)`. -/
+def cmdTrace (cls opts data : String) : String :=
+  match streamClass? cls, parseStmts data with
+  | some c, some stmts =>
+    match Stream.new c (parseSerOptions opts) with
+    | .error e => "!" ++ e.name
+    | .ok s =>
+      let (tr, s', err) := streamTrace s stmts
+      let evs := tr.map fun ev => match ev with
+        | .pull i p => s!"p{i}:{p}"
+        | .yield n => s!"y{n}"
+      s!"{" ".intercalate evs} flow={s'.flow.rows.length} {errText err}"
+  | _, _ => "?bad-args"
+
 def sourceKind? (s : String) : Option SourceKind :=
   if s == "seek" then some .seekable
   else if s.startsWith "raw:" then (s.drop 4).toString.toNat?.map SourceKind.rawNonSeekable
@@ -204,6 +189,13 @@ def handle (line : String) : String :=
     cmdLk rule (size.toNat?.getD 0) (keys.map fun k => strOfBytes (bytesOfHex k))
   | ["ser", cls, entry, opts, data] => cmdSer cls entry opts data
   | "step" :: cls :: opts :: ops => cmdStep cls opts ops
+  | ["trace", cls, opts, data] => cmdTrace cls opts data
+  | ["fits", opts, data] =>
+    match parseStmts data with
+    | some stmts =>
+      let p := (parseSerOptions opts).preset
+      " ".intercalate (stmts.map fun t => s!"{if stmtFits p t then 1 else 0}{if tripleWF t then 1 else 0}{if quadWF t then 1 else 0}")
+    | none => "?bad-data"
   | ["par", entry, strict, quoted, source, hex] => cmdPar entry strict quoted source hex
   | ["par", entry, strict, quoted, source] => cmdPar entry strict quoted source ""
   | ["spec", delim, hex] => cmdSpec delim hex
